@@ -95,8 +95,8 @@ LEAN = {"module": "Pygom.Props.C16",
                      "Pygom.C16.foreign_retry_breaks_counterexample", "Pygom.C16.mean_is_mean",
                      "Pygom.C16.first_wait_is_min_of_draws", "Pygom.C16.different_first_wait_different_path",
                      "Pygom.C16.different_streams_same_output_counterexample"]}
-BUDGET = {"quick": {"stoch": 330, "param": 180, "hist_stoch": 120, "hist_param": 120, "session": 60, "samplers": 4},
-          "thorough": {"stoch": 3200, "param": 2400, "hist_stoch": 1200, "hist_param": 1200, "session": 600, "max_steps": 1000,
+BUDGET = {"quick": {"stoch": 330, "param": 168, "mean": 24, "hist_stoch": 120, "hist_param": 120, "session": 60, "samplers": 4},
+          "thorough": {"stoch": 3200, "param": 2340, "mean": 60, "hist_stoch": 1200, "hist_param": 1200, "session": 600, "max_steps": 1000,
                        "steps": [30, 80, 200, 400], "samplers": 40}}
 RULE = ("serial calls only (parallel=False). STOCH cases: bounded-rate event models of the shared generator (1-5 states, 1-5 events, "
         "all API routes, derived parameters), integer initial states, x {exact, adaptive tau, fixed tau with steps large enough to be "
@@ -117,7 +117,10 @@ RULE = ("serial calls only (parallel=False). STOCH cases: bounded-rate event mod
         "scaling wrappers, a user-written sampler; first entry of 2 of 3 PARAM cases and of every second HIST-param case taken from these "
         "nine in turn. SAMPLERS cases: the nine helpers on their own, n in {1, 3}, always non-trivial. Boundaries: STOCH grids from t0 "
         "(50%) / after t0 / one point / repeated time / t0 twice, 3% horizons at t0; PARAM output times after t0 / from t0 / repeated / one "
-        "point (also as a bare number).")
+        "point (also as a bare number). MEAN cases: a generated model never used before, 1-3 output times, one random-parameter call with "
+        "99 / 100 / 101 / 130 / 250 / 257 iterations (each count with each entry point twice per quick run), judged by Y == exact mean of "
+        "the returned runs, one run per iteration, and 'seed; the same call with full_output=False' giving that mean again; non-trivial "
+        "when the runs differ. Boolean options: STOCH call A and SESSION calls hand `exact` / `full_output` over as bool / 1, 0 / numpy.bool_.")
 ASSUMPTIONS = ["'different seeds change the outputs' is runtime: numpy maps different seeds to streams whose first consumed draws differ; "
                "checked on raw (scalar-horizon) stochastic output with >= 20 recorded events and a coincidence probability < 1e-12 "
                "computed from the recorded run (a continuous draw, or the product of the Poisson pmfs of the recorded counts), and "
@@ -582,6 +585,9 @@ def make_cases(rng, tier, budget):
         c["pdict"] = gen_pdict(r, base["meta"]["params"], base["params"], r.choice(["frozen", "tuple", "mixed"]),
                                force=r.choice([None] + R_FUNCTIONS)) if r.random() < 0.3 else None
         c["max_steps"] = budget.get("max_steps", SC.MAX_STEPS)
+        # the FORM of the boolean options of call A (drawn last): True / False, 1 / 0, numpy.bool_ - the unchanged tree tests truthiness
+        c["A"]["exact_form"] = r.choice(["bool", "bool", "int", "np_bool"])
+        c["A"]["full_form"] = r.choice(["bool", "bool", "int", "np_bool"])
         cases.append(c)
     while len([c for c in cases if c["kind"] == "param"]) < n_pa:
         r = random.Random(rng.getrandbits(64))
@@ -616,7 +622,7 @@ def make_cases(rng, tier, budget):
         cases.append(c)
     for _ in range(budget.get("samplers", 0)):
         cases.append(gen_samplers_case(random.Random(rng.getrandbits(64))))
-    for kind, gen_ in (("hist_stoch", gen_hist_stoch), ("hist_param", gen_hist_param), ("session", gen_session_case)):
+    for kind, gen_ in (("hist_stoch", gen_hist_stoch), ("hist_param", gen_hist_param), ("session", gen_session_case), ("mean", gen_mean_case)):
         n = 0
         while n < budget.get(kind, 0):
             c = gen_(random.Random(rng.getrandbits(64)), budget, n)
@@ -628,7 +634,7 @@ def make_cases(rng, tier, budget):
 
 def search_cases(rng, tier, budget):
     b = dict(budget)
-    for k in ("stoch", "param", "hist_stoch", "hist_param", "session"):
+    for k in ("stoch", "param", "hist_stoch", "hist_param", "session", "mean"):
         b[k] = budget.get(k, 0) * 3
     b["samplers"] = 0
     return make_cases(rng, tier, b)
@@ -797,7 +803,8 @@ def stoch_call(model, case, which, seed, full=True, reseed=True):
     with caps(model, case[which]["exact"], case.get("max_steps", SC.MAX_STEPS)):
         if reseed:
             np.random.seed(seed)
-        return Res(quiet(model.solve_stochast, time_arg(case, which), n_arg(case[which]), parallel=False, exact=case[which]["exact"], full_output=full),
+        return Res(quiet(model.solve_stochast, time_arg(case, which), n_arg(case[which]), parallel=False,
+                         exact=SC.flag_obj(case[which]["exact"], case[which].get("exact_form")), full_output=SC.flag_obj(full, case[which].get("full_form"))),
                    "%s, seed %s" % (which, seed))
 
 
@@ -837,6 +844,7 @@ def run_stoch(case):
     tags += ["stoch", "mode:" + sim["mode"], "time:" + A["time"], "n=%d" % n, pform, "nS=%d" % nS, "nE=%d" % nE] + pdict_tags(case)
     if "grid" in (A["time"], B["time"]): tags.append("grid_shape:%s" % case.get("grid_shape", "from_t0"))
     if float(sim["T"]) <= float(sim["t0"]): tags.append("horizon-at-t0")
+    tags += ["exact_form:%s" % A.get("exact_form", "bool"), "full_output_form:%s" % A.get("full_form", "bool")]
     sig = lambda what, extra="": "C16:solve_stochast:%s:%s:%s:%s%s" % (what, modek, form, pform, extra)
 
     def mm(what, detail):
@@ -1084,6 +1092,30 @@ def exact_mean(Yall):
     return out
 
 
+def check_mean_of(out, entry, nn, viol, sig):
+    """`Y == mean(Y_all)`: the reported mean trajectory against the exact rational mean of the runs returned alongside it, entry by
+    entry, to 1e-12 of the largest term (numpy sums n doubles to within n * 1.1e-16 of it); for any number of runs"""
+    if out[1] is not None:
+        return
+    Yo, Yl = np.asarray(out[0][0], float), [np.asarray(y, float) for y in out[0][1]]
+    if len(Yl) != nn:
+        viol.append({"what": "Y_all has %d elements for %d iterations" % (len(Yl), nn), "signature": sig("yall-length", entry), "detail": ""})
+        return
+    if any(y.shape != Yo.shape for y in Yl):
+        viol.append({"what": "Y and Y_all have different shapes", "signature": sig("shape", entry), "detail": "%s vs %s" % (Yo.shape, [y.shape for y in Yl])})
+        return
+    if not (np.all(np.isfinite(Yo)) and all(np.all(np.isfinite(y)) for y in Yl)):
+        return
+    ref = exact_mean(Yl)
+    for idx in np.ndindex(*Yo.shape):
+        big = max(abs(float(y[idx])) for y in Yl)
+        if abs(Fraction(float(Yo[idx])) - ref[idx]) > Fraction(1e-12) * Fraction(big):
+            viol.append({"what": "the reported mean trajectory is not the mean of the runs returned alongside it",
+                         "signature": sig("mean", entry),
+                         "detail": "entry %s: Y=%r, mean(Y_all)=%r (n=%d, terms %s%s)" % (idx, float(Yo[idx]), float(ref[idx]), nn, [float(y[idx]) for y in Yl[:8]], " ..." if nn > 8 else "")})
+            return
+
+
 def run_param(case):
     del WARNED[:]
     r = _run_param(case)
@@ -1259,26 +1291,7 @@ def _run_param(case):
             return False
         return True
 
-    def check_mean(out, entry, nn):
-        if out[1] is not None:
-            return
-        Yo, Yl = np.asarray(out[0][0], float), [np.asarray(y, float) for y in out[0][1]]
-        if len(Yl) != nn:
-            viol.append({"what": "Y_all has %d elements for %d iterations" % (len(Yl), nn), "signature": sig("yall-length", entry), "detail": ""})
-            return
-        if any(y.shape != Yo.shape for y in Yl):
-            viol.append({"what": "Y and Y_all have different shapes", "signature": sig("shape", entry), "detail": "%s vs %s" % (Yo.shape, [y.shape for y in Yl])})
-            return
-        if not (np.all(np.isfinite(Yo)) and all(np.all(np.isfinite(y)) for y in Yl)):
-            return
-        ref = exact_mean(Yl)
-        for idx in np.ndindex(*Yo.shape):
-            big = max(abs(float(y[idx])) for y in Yl)
-            if abs(Fraction(float(Yo[idx])) - ref[idx]) > Fraction(1e-12) * Fraction(big):
-                viol.append({"what": "the reported mean trajectory is not the mean of the runs returned alongside it",
-                             "signature": sig("mean", entry),
-                             "detail": "entry %s: Y=%r, mean(Y_all)=%r (n=%d, terms %s)" % (idx, float(Yo[idx]), float(ref[idx]), nn, [float(y[idx]) for y in Yl])})
-                return
+    check_mean = lambda out, entry, nn: check_mean_of(out, entry, nn, viol, sig)
 
     call = lambda *a_, **k_: keeper.keep(param_call(*a_, **k_))
     O1 = keeper.keep(O1, "traced run")
@@ -1319,6 +1332,83 @@ def _run_param(case):
     return {"nontrivial": bool(sensitive and finite), "mismatches": mism, "violations": viol, "tags": tags,
             "sample": {"kind": "param", "spec": spec, "x0": case["x0"], "params": case["params"], "pdict": case["pdict"],
                        "A": A, "B": B, "grid": case["grid"], "recorded_draws": len(body)}}
+
+
+# ----------------------------------------------------------------------------- MEAN: iteration counts around and beyond round numbers
+# `mean_is_mean` (Props/C16.lean) is stated for ANY number of runs; the PARAM / HIST cases use 1..6.  A MEAN case is the cheapest
+# random-parameter call there is (a generated model, 1-3 output times, never used before) with an iteration count from MEAN_COUNTS,
+# taken in turn with each entry point: `Y == mean(Y_all)` exactly (rational mean of the returned runs, 1e-12 of the largest term), one
+# run per iteration, and "seed; the same call with full_output=False" returns that mean again.  Seeded C16-d1 (the mean taken over
+# blocks of 100 runs, the block means averaged unweighted) only shows beyond 100 runs, for counts that are not a multiple of 100.
+MEAN_COUNTS = [99, 100, 101, 130, 250, 257]
+
+
+def gen_mean_case(r, budget, index=0):
+    base = SC.gen_sim_case(r, max_x0=25)
+    if base is None:
+        return None
+    c = dict(base)
+    c["kind"] = "mean"
+    c["sim"] = SC.sim_settings(r, base, "exact", steps=[20, 40])
+    t0, T = c["sim"]["t0"], c["sim"]["T"]
+    k = r.choice([1, 2, 3])
+    c["grid"] = [t0 + (T - t0) * (i + 1) / k for i in range(k)]
+    c["grid_shape"] = "one_point" if k == 1 else "after_t0"
+    c["form"] = r.choice(["frozen", "tuple", "mixed"])
+    c["pdict"] = gen_pdict(r, base["meta"]["params"], base["params"], c["form"])
+    n = MEAN_COUNTS[index % len(MEAN_COUNTS)]
+    c["n"] = n
+    c["A"] = {"entry": ["simulate_param", "solve_determ"][(index // len(MEAN_COUNTS)) % 2], "n": n, "n_form": r.choice(["int", "int", "np_i64"])}
+    c["grid_form"] = r.choice(["array", "array", "list", "tuple"])
+    return c
+
+
+def run_mean(case):
+    import time as _time
+    del WARNED[:]
+    tags, mism, viol = ["mean-case"], [], []
+    A = case["A"]
+    n, seed = int(A["n"]), case["sim"]["np_seed"]
+    formk = "+".join(sorted(set(e["kind"] for e in case["pdict"] if e["kind"] != "fixed")))
+    tags += ["entry:" + A["entry"], "form:" + formk, "n=%d" % n, "n:%s" % ("<100" if n < 100 else "100" if n == 100 else "101..199" if n < 200 else ">=200"),
+             "grid_form:%s" % case.get("grid_form", "array")]
+    sig = lambda what, entry=A["entry"]: "C16:%s:%s:%s" % (entry, what, formk)
+    skip = lambda why: {"nontrivial": False, "mismatches": [], "violations": [], "tags": tags + [why]}
+    # as in the PARAM cases: models whose integration explodes (lsoda then returns garbage that differs from call to call) are left out;
+    # so are models whose integration is slow (the case makes 2 n of them)
+    bound = 1e4 * (1.0 + max(abs(float(v)) for v in case["x0"]))
+    m0 = pymodel.build(case["spec"], backend="lambda")
+    m0.initial_values = (np.array(case["x0"], float), np.float64(case["sim"]["t0"]))
+    m0.parameters = {k: 1.3 * float(v) for k, v in case["params"].items()}
+    quiet(m0.integrate, np.array(case["grid"], float))            # compiles
+    t_ = _time.time()
+    sol0, err0 = quiet(m0.integrate, np.array(case["grid"], float))
+    t_ = _time.time() - t_
+    if err0 is not None or not np.all(np.isfinite(sol0)) or float(np.max(np.abs(sol0))) > bound:
+        return skip("unstable-integration-skipped")
+    if t_ * 2 * n > 30.0:
+        return skip("slow-integration-skipped")
+    model = fresh_param_model(case, prep="none")
+    O1 = param_call(model, case, "A", seed)
+    if O1.err is not None:
+        tags.append("raised:" + type(O1.err).__name__)
+        return {"nontrivial": False, "mismatches": mism, "violations": viol, "tags": tags}
+    Yall = [np.asarray(y, float) for y in O1.out[1]]
+    if not all(np.all(np.isfinite(y)) for y in Yall) or max(float(np.max(np.abs(y))) for y in Yall) > bound:
+        return skip("unstable-integration-skipped")
+    check_mean_of(O1, A["entry"], n, viol, sig)
+    O2 = param_call(model, case, "A", seed, full=False)
+    if [w for w in WARNED if w in ("ODEintWarning", "RuntimeWarning")]:
+        return skip("unstable-integration-skipped")
+    if O2.err is not None or not same(O2.out, O1.snap[0]):
+        viol.append({"what": "full_output=False does not return the mean of the full_output=True run of the same seed",
+                     "signature": sig("full-output-differs"), "detail": "n=%d: %s vs %s" % (n, brief(O2.out) if O2.err is None else repr(O2.err), brief(O1.snap[0]))})
+    if not same(O1.out, O1.snap):
+        viol.append({"what": "a result returned earlier was changed by later calls on the model (full_output=True run)", "signature": sig("result-overwritten"),
+                     "detail": "returned %s, now reads %s" % (brief(O1.snap), brief(O1.out))})
+    differ = any(not np.array_equal(Yall[0], y) for y in Yall[1:])
+    return {"nontrivial": bool(differ), "mismatches": mism, "violations": viol, "tags": tags,
+            "sample": {"kind": "mean", "spec": case["spec"], "x0": case["x0"], "params": case["params"], "pdict": case["pdict"], "A": A, "grid": case["grid"]}}
 
 
 # ----------------------------------------------------------------------------- HIST: "seed; target call" after different histories
@@ -1835,6 +1925,7 @@ def gen_session_case(r, budget, index=0):
     for i in runs:
         if r.random() < 0.5:
             c["session"][i]["fresh_ref"] = True
+    SC.add_flag_forms(r, c["session"], share=0.4)           # `exact` / `full_output` as 1 / 0 or numpy.bool_ in some calls
     c["max_steps"] = budget.get("max_steps", SC.MAX_STEPS)
     return c
 
@@ -1882,6 +1973,6 @@ def run_session_case(case):
 
 def run_case(case):
     k = case["kind"]
-    r = {"stoch": run_stoch, "param": run_param, "hist": run_hist, "session": run_session_case, "samplers": run_samplers}[k](case)
+    r = {"stoch": run_stoch, "param": run_param, "hist": run_hist, "session": run_session_case, "samplers": run_samplers, "mean": run_mean}[k](case)
     r["tags"] = sorted(set(r["tags"]))
     return r
